@@ -70,7 +70,9 @@ def gen_option(rng, slot):
 NAME_FORMS = [(None, "seq1"), ("s", "q"), ("Sch", "My_Seq"), (None, '"Q"'), ('"S"', '"Q2"'), (None, "`bq`"), ("[dbo]", "[sq]"), (None, "SEQ_UP")]
 # verbatim names (no index suffix): double-quoted names containing a dot, and - behind a schema - names spelled like the option keywords
 EXACT_NAME_FORMS = [(None, '"billing.invoice_no"'), ("dev", '"v1.2_ids"'), ('"tenant.a"', '"seq.main"'), ("dev", "cache"), ("billing", "order"), ("public", "Start"),
-                    ("s", "increment"), ("s", "minvalue"), ("s", "no"), ("s", "by"), ("s", "with"), ("s", "noorder"), ("s", "maxvalue"), ("dev", "CACHE"), ("s", "Order")]
+                    ("s", "increment"), ("s", "minvalue"), ("s", "no"), ("s", "by"), ("s", "with"), ("s", "noorder"), ("s", "maxvalue"), ("dev", "CACHE"), ("s", "Order"),
+                    # names that merely begin like a type keyword
+                    (None, "array_ids"), (None, "Array_Position_Seq"), ("arrays", "next_id"), (None, "enum_seq"), (None, "map_ids"), ("structs", "s1")]
 
 
 def gen_sequence(rng, order, idx):
